@@ -27,7 +27,9 @@ INVARIANTS = ["SigWellFormed", "StillAccepted", "BindPreserved", "ExplicitPassed
 
 
 def constants(kinds, max_changers, max_params=3, ko="NoKo", previews=0):
-    return {"MaxRecv": 3, "MaxPreviews": previews, "PreviewKinds": tlc.Sub("AllPreviews" if previews else "NoPreview"),"MaxParams": max_params, "MaxArgs": 3, "Kinds": tlc.Sub(kinds), "Stars": True, "KoSet": tlc.Sub(ko),
+    return {"Mods": tlc.Sub("TwoMods"), "Imps": tlc.Sub("NoImp"), "Ctxs": tlc.Sub("AllCtxs"),
+            "Furniture": tlc.Sub("AllFurniture"),
+            "MaxRecv": 3, "MaxPreviews": previews, "PreviewKinds": tlc.Sub("AllPreviews" if previews else "NoPreview"),"MaxParams": max_params, "MaxArgs": 3, "Kinds": tlc.Sub(kinds), "Stars": True, "KoSet": tlc.Sub(ko),
             "MaxChangers": max_changers, "Task": "sig", "MaxSites": 1,
             "Uses": tlc.Sub("PlainOnly"), "Cxs": tlc.Sub("NoCx"), "Hosts": tlc.Sub("NoHost"), "Dups": tlc.Sub("NoDup")}
 
